@@ -200,6 +200,7 @@ def alphabet(seed, prof="full", plus=True):
     C("open_tx_pipe", (P(4, 19),), "len4")
     C("open_tx_pipe", (A5,), "len5", "pipes")  # the address open_rx_pipe(0, A5) uses
     C("open_tx_pipe", (b"",), "len0")
+    C("open_tx_pipe", (P(6, 20),), "len6")
     if not lite:
         for a, c in (((), "tx"), ((0,), "pipe0-1"), ((1,), "pipe0-1"), ((2,), "pipe2-5"), ((5,), "pipe2-5"), ((6,), "index>5"), ((-2,), "tx")):
             C("address", a, c, "pipes" if a in ((), (0,)) else None)
@@ -293,6 +294,7 @@ class Ctx:
         self.getters = getter_calls(prof)
         self.has_with = PROFILES[prof]["has_with"]
         self.checked = set()  # canonical states whose state clauses (c), (d) were evaluated
+        self.bad = {}  # ... and those among them that violated one: state -> (clause, getter name, text)
         self.idx_after_clobber = [i for i, e in enumerate(self.A) if e[1] in ("stop_carrier_wave", "reenter")]
         self.found = []  # (sig, what) of the current step (for replay)
 
@@ -408,7 +410,15 @@ class Ctx:
         # ---- state clauses, once per distinct state
         k = self.canon(st)
         if k in self.checked:
-            return True
+            b = self.bad.get(k)
+            if b is None:
+                return True
+            # a state already known to violate a state clause, reached again (possibly through another call)
+            if b[0] == "getter":
+                self.viol("getter", b[1], "in-domain", b[2], hist)
+            else:
+                self.viol(b[0], name, cls, b[2] % show(ent), hist)
+            return False
         self.checked.add(k)
         if self.count_states:
             rep.states += 1
@@ -420,7 +430,8 @@ class Ctx:
             drv2.__exit__(None, None, None)
             if radio2.r[0] & R.PWR_UP or radio2.ce_pin.value:
                 w.activate()
-                self.viol("exit", name, cls, "after __exit__: PWR_UP=%d CE=%d" % (bool(radio2.r[0] & 2), radio2.ce_pin.value), hist)
+                self.bad[k] = ("exit", None, "after %%s: __exit__ leaves PWR_UP=%d CE=%d" % (bool(radio2.r[0] & 2), radio2.ce_pin.value))
+                self.viol("exit", name, cls, self.bad[k][2] % show(ent), hist)
                 return False
             drv2.__enter__()
             d = R.diff(obs, radio2.regfile())
@@ -429,9 +440,11 @@ class Ctx:
             ill = [x for x in radio2.illegal_writes[m:] if not (x[0] == R.SETUP_AW and ref.r[R.SETUP_AW] == 0)]
             w.activate()
             if d or ill:
-                self.viol("cache", name, cls, "after %s the driver's cached configuration differs from the radio: a `with` "
-                          "re-entry changes %s%s" % (show(ent), R.fmt({k_: (v[1], v[0]) for k_, v in d.items()}).replace("expected", "to").replace("got", "from"),
-                                                     (" and writes " + repr(ill[:2])) if ill else ""), hist)
+                text = "after %%s the driver's cached configuration differs from the radio: a `with` re-entry changes %s%s" % (
+                    R.fmt({k_: (v[1], v[0]) for k_, v in d.items()}).replace("expected", "to").replace("got", "from").replace("%", "%%"),
+                    (" and writes " + repr(ill[:2]).replace("%", "%%")) if ill else "")
+                self.bad[k] = ("cache", None, text)
+                self.viol("cache", name, cls, text % show(ent), hist)
                 return False
         # (c) every getter returns the value in effect
         w3, drv3, radio3, _ = copy.deepcopy(st)
@@ -446,8 +459,9 @@ class Ctx:
         w.activate()
         if bad:
             g, e3, r3, want = bad
-            self.viol("getter", g[1], "in-domain", "after %s: %s -> %s, value in effect %r" % (
-                show(ent), show(g), e3 or repr(r3), want), hist)
+            text = "%s -> %s, value in effect %r" % (show(g), e3 or repr(r3), want)
+            self.bad[k] = ("getter", g[1], text)
+            self.viol("getter", g[1], "in-domain", text, hist)
             return False
         return True
 
